@@ -348,9 +348,14 @@ def gen_c17(rnd, tier):
         if i == 0:      # the witness
             st["tids"][0] += 2
             t = st["tids"][0]
+            # (it also looks at what the server says about its sessions and asks for keys the offenders lock:
+            #  an offender's session that ended must be gone for everybody)
             return rnd.choice([{"op": "set", "c": name, "key": ["w", "k"], "val": "w%d" % rd, "tid": t},
                                {"op": "get", "c": name, "key": ["w", "k"], "tid": t},
-                               {"op": "pget", "c": name, "pat": ["w", "#"], "tid": t}])
+                               {"op": "pget", "c": name, "pat": ["w", "#"], "tid": t},
+                               {"op": "pget", "c": name, "pat": ["$SYS", "clients"], "tid": t},
+                               {"op": "lock", "c": name, "key": rnd.choice(KEYS), "tid": t},
+                               {"op": "release", "c": name, "key": rnd.choice(KEYS), "tid": t}])
         r = rnd.random()
         if r < 0.12:
             return {"op": "raw", "c": name, "line": rnd.choice(GARBAGE)}
